@@ -24,9 +24,9 @@ func init() {
 		Doc:      "every return of the exported func(Primary,…) Primary conversions of lib/value is a pool-constructor result or a non-pooled singleton, never the parameter",
 		Controls: []string{"CtlConvReturnsParam"},
 		Run:      rulePool1})
-	Register(&Rule{ID: "R-POOL-2", Props: []string{"C14", "C08", "C16"}, Floor: 100,
+	Register(&Rule{ID: "R-POOL-2", Props: []string{"C14", "C08", "C16", "C07"}, Floor: 100,
 		Doc:      "each value.Discard argument originates from fresh-returning calls of the same function, has not escaped on a path that reaches the Discard, and is not used after it",
-		Controls: []string{"CtlDiscardParam", "CtlDiscardEscaped", "CtlUseAfterDiscard"},
+		Controls: []string{"CtlDiscardParam", "CtlDiscardEscaped", "CtlUseAfterDiscard", "CtlDeferredDoubleDiscard"},
 		Run:      rulePool2})
 	Register(&Rule{ID: "R-POOL-3", Props: []string{"C14"}, Floor: 4,
 		Doc:      "fields of the pooled value types are stored only by their pool constructors; Null/Boolean/Ternary objects are allocated only as the package singletons (identity tests such as IsNull stay valid)",
@@ -394,6 +394,17 @@ func rulePool2(c *Ctx) {
 						}
 					}
 					if _, isDefer := call.(*ssa.Defer); isDefer {
+						// the deferred release runs at the exit: an explicit release registered or executed
+						// after the defer statement releases the same object a second time
+						for _, r := range *a.Referrers() {
+							rc, ok := r.(ssa.CallInstruction)
+							if !ok || r == ssa.Instruction(call) || c.P.CalleeName(rc) != "lib/value.Discard" {
+								continue
+							}
+							if core.Reachable(call, r, func(in ssa.Instruction) bool { return in == def }) {
+								problem = fmt.Sprintf("double Discard: released at %s and again by this deferred call when the function returns", c.Pos(r))
+							}
+						}
 						continue
 					}
 					for _, r := range *a.Referrers() {
